@@ -121,15 +121,33 @@ Qed.
 Lemma holds_conn : forall p c w, holdsP p c w -> connP p c.
 Proof. destruct p; simpl; tauto. Qed.
 
+(* the key determines the whole multimap: the values of a name are read back from the line sequence *)
+Lemma hvals_lines : forall h n, hvals h n = map snd (filter (fun l => N.eqb (fst l) n) (hdr_lines h)).
+Proof.
+  induction h as [|[m vs] h IH]; intros n; [reflexivity|].
+  unfold hvals, hdr_lines in *. simpl. rewrite filter_app, map_app, <- IH. f_equal.
+  destruct (N.eqb_spec m n).
+  - subst. induction vs as [|v vs IHv]; simpl; [reflexivity|]. rewrite N.eqb_refl. simpl. f_equal. exact IHv.
+  - induction vs as [|v vs IHv]; simpl; [reflexivity|]. destruct (N.eqb_spec m n); [contradiction|]. exact IHv.
+Qed.
+
+Lemma conn_key_same_opts : forall a b, conn_key a = conn_key b -> same_opts a b.
+Proof.
+  intros [[[e1 p1] h1] i1] [[[e2 p2] h2] i2] H. simpl in H. inversion H; subst. simpl.
+  repeat split; auto. intro n. rewrite !hvals_lines. congruence.
+Qed.
+
 Theorem shared_iff_same_key_proof : forall idl s log, reach idl s log ->
   forall c x w i w' j, cns s c = Some x -> In (w, i) (c_subs x) -> In (w', j) (c_subs x) ->
-    okey s i = c_key x /\ okey s j = c_key x.
+    okey s i = c_key x /\ okey s j = c_key x
+    /\ forall oi oj, okey s i = conn_key oi -> okey s j = conn_key oj -> same_opts oi oj.
 Proof.
   intros idl s log HR c x w i w' j Hc Hi Hj. destruct (reach_good _ _ _ HR) as (HI & HD & _).
   assert (G : forall w i, In (w, i) (c_subs x) -> okey s i = c_key x).
   { intros w0 i0 H0. pose proof (I1 _ HI _ _ _ _ Hc H0) as Hh. apply holds_conn in Hh.
     pose proof (D5 _ HD _ _ Hh) as Hk. unfold ck in Hk. rewrite Hc in Hk. simpl in Hk. congruence. }
-  split; eapply G; eauto.
+  split; [eapply G; eauto|]. split; [eapply G; eauto|].
+  intros oi oj Ei Ej. apply conn_key_same_opts. rewrite <- Ei, <- Ej, (G _ _ Hi), (G _ _ Hj). reflexivity.
 Qed.
 
 (* ---- conns_drain ---- *)
